@@ -25,11 +25,22 @@ func c16Group(tag string, node uint64) raftpb.Group {
 	return raftpb.Group{NodeId: node, Name: "n", GroupId: c16Small(tag + ".gid"), RaftReplicaId: c16Small(tag + ".rid")}
 }
 
-func c16Entries(n int) []raftpb.Entry {
+func c16Entries(n int) []raftpb.Entry { return c16EntriesL(n, -1) }
+
+func c16EntriesL(n int, fixedLen int) []raftpb.Entry {
 	var es []raftpb.Entry
 	for i := 0; i < n; i++ {
-		e := raftpb.Entry{Term: c16Small("e.term"), Index: c16Small("e.index"), Type: raftpb.EntryType(vsym.Choose("e.type", 2)),
-			ID: c16Small("e.id"), Data: vsym.Bytes("e.data", vsym.Choose("e.datalen", 3))}
+		et := c16Small("e.type")
+		vsym.Assume(et < 2)
+		dl := fixedLen
+		if dl < 0 {
+			dl = 2 * vsym.Choose("e.datalen", 2) // 0 or 2 bytes
+			if vsym.Thorough() {
+				dl = vsym.Choose("e.datalen", 3)
+			}
+		}
+		e := raftpb.Entry{Term: c16Small("e.term"), Index: c16Small("e.index"), Type: raftpb.EntryType(et),
+			ID: c16Small("e.id"), Data: vsym.Bytes("e.data", dl)}
 		es = append(es, e)
 	}
 	return es
@@ -37,11 +48,15 @@ func c16Entries(n int) []raftpb.Entry {
 
 // c16AppMsg builds a MsgApp the way raft.send does for the v2 stream: From/To are the replica ids of the groups.
 func c16AppMsg(maxEnts int) raftpb.Message {
+	return c16AppMsgE(c16Entries(vsym.Choose("nents", maxEnts+1)))
+}
+
+func c16AppMsgE(ents []raftpb.Entry) raftpb.Message {
 	fg := c16Group("from", c16Remote)
 	tg := c16Group("to", c16Local)
 	return raftpb.Message{Type: raftpb.MsgApp, From: fg.RaftReplicaId, To: tg.RaftReplicaId, FromGroup: fg, ToGroup: tg,
 		Term: c16Small("term"), LogTerm: c16Small("logterm"), Index: c16Small("index"), Commit: c16Small("commit"),
-		Entries: c16Entries(vsym.Choose("nents", maxEnts+1))}
+		Entries: ents}
 }
 
 func c16CloneMsg(m raftpb.Message) raftpb.Message {
@@ -99,7 +114,7 @@ func Verif_C16_R1_MsgAppV2() {
 	var sent []raftpb.Message
 	for i := 0; i < k; i++ {
 		var m raftpb.Message
-		if vsym.Choose("kind", 3) == 0 {
+		if vsym.Choose("kind", 2) == 0 {
 			m = linkHeartbeatMessage
 		} else {
 			m = c16AppMsg(maxEnts)
@@ -135,10 +150,10 @@ func Verif_C16_R1_MsgAppV2() {
 func Verif_C16_R3_MsgAppV2_Truncation() {
 	var buf bytes.Buffer
 	enc := newMsgAppV2Encoder(&buf, &stats.PeerStats{})
-	first := c16AppMsg(0)
+	first := c16AppMsgE(nil)
 	vsym.Assert(enc.encode(&first) == nil, "encode first")
 	n1 := buf.Len()
-	second := c16AppMsg(1)
+	second := c16AppMsgE(c16EntriesL(1, 2)) // solver decides whether it continues the first one
 	vsym.Assert(enc.encode(&second) == nil, "encode second")
 	n2 := buf.Len()
 	cut := n1 + vsym.Choose("cut", n2-n1) // the stream ends inside the second message
@@ -181,10 +196,19 @@ func c16Wide(name string) uint64 {
 func Verif_C16_R2_MessageCodec() {
 	var buf bytes.Buffer
 	enc := &messageEncoder{w: &buf}
-	k := 1 + vsym.Choose("k", 2)
+	k := 1
+	if vsym.Thorough() {
+		k = 1 + vsym.Choose("k", 2)
+	}
 	var sent []raftpb.Message
 	for i := 0; i < k; i++ {
-		m := raftpb.Message{Type: raftpb.MessageType(vsym.Choose("type", 19)), From: c16Small("from"), To: c16Small("to"),
+		// the type is a symbolic value; MsgSnap (which carries a snapshot) is a shape of its own
+		typ := raftpb.MessageType(c16Small("type"))
+		vsym.Assume(typ <= 18 && typ != raftpb.MsgSnap)
+		if vsym.Choose("snap", 2) == 1 {
+			typ = raftpb.MsgSnap
+		}
+		m := raftpb.Message{Type: typ, From: c16Small("from"), To: c16Small("to"),
 			Term: c16Small("term"), LogTerm: c16Small("logterm"), Index: c16Small("index"), Commit: c16Small("commit"),
 			Reject: vsym.Bool("reject"), RejectHint: c16Small("hint"),
 			FromGroup: c16Group("from", c16Remote), ToGroup: c16Group("to", c16Local)}
@@ -230,8 +254,10 @@ func Verif_C16_R2_MessageCodec() {
 func Verif_C16_R3_MessageCodec_Truncation() {
 	var buf bytes.Buffer
 	enc := &messageEncoder{w: &buf}
-	m := raftpb.Message{Type: raftpb.MessageType(vsym.Choose("type", 19)), From: c16Small("from"), To: c16Small("to"), Term: c16Small("term"),
-		Entries: c16Entries(1)}
+	typ := raftpb.MessageType(c16Small("type"))
+	vsym.Assume(typ <= 18)
+	m := raftpb.Message{Type: typ, From: c16Small("from"), To: c16Small("to"), Term: c16Small("term"),
+		Entries: c16EntriesL(1, 2)}
 	vsym.Assert(enc.encode(&m) == nil, "encode")
 	n := buf.Len()
 	cut := vsym.Choose("cut", n)
